@@ -53,7 +53,7 @@ def run(F, R):
     # S11: the selector's value: the legacy-header flag is (not VERSION_1 and not MRG_RXBUF) of the negotiated set, whatever the
     # transport's queue layout (C08.H5) - otherwise both directions use a header of the wrong size
     from .C08 import h5_net
-    h5_net(F, RuleProxy(R, {'H5': 'S11'}))
+    guard(R, 'S11', 'flag-value', lambda: h5_net(F, RuleProxy(R, {'H5': 'S11'})))
     s2_send(F, R, M, roles, h12, h10)
     s3_receive(F, R, roles, h12, h10)
     s7_tx_length(F, R, roles, h12, h10)
